@@ -375,6 +375,26 @@ func (in *Interp) Eval(n *Node, env *Env) (Value, *Err) {
 	return nil, errf("unknown node")
 }
 
+// each pulls the items of l one by one and calls f before the next item is pulled.
+func (in *Interp) each(l *List, f func(it Value) *Err) *Err {
+	pull := l.Iter()
+	for {
+		it, pe, ok := pull()
+		if pe != nil {
+			return pe
+		}
+		if !ok {
+			return nil
+		}
+		if e := in.tick(); e != nil {
+			return e
+		}
+		if e := f(it); e != nil {
+			return e
+		}
+	}
+}
+
 func isOpaque(v Value) bool { _, ok := v.(Opaque); return ok }
 
 func (in *Interp) evalBinary(n *Node, env *Env) (Value, *Err) {
